@@ -801,6 +801,10 @@ class VM:
             exc = self.stack.pop()
             self._throw(exc)
 
+        elif op == OpCode.RETHROW:
+            exc = self.stack.pop()
+            self._throw(exc, locate=False)
+
         elif op == OpCode.TRY_START:
             # arg is the catch handler offset
             self.exception_handlers.append(
